@@ -9,7 +9,7 @@ open Lean Drivers PymocaVerif.SqliteLock
 
 def stmtOf : String → Except String Stmt
   | "beginD" => pure .beginD | "beginI" => pure .beginI | "read" => pure .read
-  | "write" => pure .write | "commit" => pure .commit
+  | "write" => pure .write | "commit" => pure .commit | "work" => pure .work
   | s => throw s!"bad-stmt {s}"
 
 def lockOf : String → Except String Lock
@@ -52,8 +52,9 @@ def handle (req : Json) : Except String Json := do
     let prog ← progOf 200 (← getObj req "prog")
     let traces ← (← getArr req "traces").toList.mapM fun t => do
       (← t.getArr?).toList.mapM fun k => do stmtOf (← k.getStr?)
-    let ps := (paths prog).map (·.map (·.1))
-    pure (Json.mkObj [("ok", true), ("noUpgrade", noUpgrade prog), ("npaths", ps.length),
+    -- recorded traces contain SQL statements only: compare with the paths minus their `work` marks
+    let ps := (paths prog).map fun p => (p.map (·.1)).filter (· != .work)
+    pure (Json.mkObj [("ok", true), ("noUpgrade", noUpgrade prog), ("noWorkInsideTxn", noWorkInsideTxn prog), ("npaths", ps.length),
       ("member", Json.arr (traces.map fun t => Json.bool (ps.contains t)).toArray)])
   | o => throw s!"unknown-op {o}"
 
